@@ -208,6 +208,19 @@ def spec_buckets(obs_r, ll_r, lu_r, edge_lo_r, edge_hi_r, n_lower, n_upper, clos
     return zs, counts, feasible
 
 
+def spec_buckets_alt(zs, counts, obs_r, ll_r, lu_r, edge_lo_r, edge_hi_r, n_lower, n_upper, closed_left):
+    """Second admissible reading when the lower limit *is* the lower support edge (the docstring does not
+    cover it): the left-censored observations are `<= limit = a-`; if they sit exactly on `a-` the closed
+    left-most bucket takes them ("the leftmost bucket must be closed (i.e., include a-)").  Returns
+    (counts, feasible) or None when the situation does not arise."""
+    if not (n_lower > 0 and closed_left and ll_r == zs[0] and len(counts) > 0):
+        return None
+    alt = list(counts)
+    alt[0] += n_lower
+    feasible = not (n_upper > 0 and lu_r == zs[-1]) and all(edge_lo_r <= y <= edge_hi_r for y in obs_r)
+    return alt, feasible
+
+
 def spec_objective(F, counts, n, feasible=True, with_scale=False):
     """minus the grouped log-likelihood divided by n+1, plus the documented constant; F = cdf values at the edges.
     `scale` = sum of the absolute values of the terms (what a relative tolerance on a floating sum refers to
@@ -418,8 +431,10 @@ def spec_side(task, out):
         edge_lo, edge_hi = (box["a"][0], box["b"][1]) if pinned else (-INF, INF)
         zs, counts, feasible = spec_buckets(obs_r, rnd(lo, dec), rnd(hi, dec), rnd(edge_lo, dec), rnd(edge_hi, dec),
                                             n_lower, n_upper, pinned)
-        p = dict(convex=convex, pinned=pinned, zs=zs, counts=counts, feasible=feasible,
-                 edge=[edge_lo, edge_hi], thetas=[], F=[], f_spec=[], nonmono=[], scale=[])
+        alt = spec_buckets_alt(zs, counts, obs_r, rnd(lo, dec), rnd(hi, dec), rnd(edge_lo, dec), rnd(edge_hi, dec),
+                               n_lower, n_upper, pinned)
+        p = dict(convex=convex, pinned=pinned, zs=zs, counts=counts, feasible=feasible, alt=alt,
+                 edge=[edge_lo, edge_hi], thetas=[], F=[], f_spec=[], f_spec_alt=[], nonmono=[], scale=[])
         thetas = rec["thetas"] if rec is not None else [[]]
         if rec is not None and rec.get("result_x") is not None:
             thetas = thetas + [rec["result_x"]]
@@ -431,13 +446,15 @@ def spec_side(task, out):
                     dist = _dist(case, params, convex)
                     F = [float(v) for v in dist.cdf(np.array(zs, dtype=float))]
                     fs, nm, sc = spec_objective(F, counts, n, feasible, with_scale=True)
+                    fa = spec_objective(F, alt[0], n, alt[1])[0] if alt is not None else None
                 except ValueError:
-                    F, fs, nm, sc = None, INF, False, INF   # no such distribution (e.g. a > b)
+                    F, fs, nm, sc, fa = None, INF, False, INF, (INF if alt is not None else None)
                 p["thetas"].append(th)
                 p["F"].append(F)
                 p["f_spec"].append(fs)
                 p["nonmono"].append(nm)
                 p["scale"].append(sc)
+                p["f_spec_alt"].append(fa)
         passes.append(p)
     out["passes"] = passes
 
@@ -941,3 +958,16 @@ def check_summary(rep, case, out, m):
         rep.disagree(op="fit.plan", note="ranks i_min/j_max differ between model and Spec", input=case)
         return False
     return True
+
+
+def spec_infeasible(out):
+    """does the documented objective assign zero likelihood to the data for every parameter vector of some
+    pass, under every admissible reading (censored observations beyond a support edge, observations outside
+    the hull of the candidate supports)?  Then no finite-objective optimiser run exists for that pass and
+    raising ValueError / OptimizationError is what the documentation implies."""
+    for sp in out.get("passes", []):
+        if "error" in sp:
+            continue
+        if not sp["feasible"] and (sp.get("alt") is None or not sp["alt"][1]):
+            return True
+    return False
